@@ -18,6 +18,7 @@ import (
 	"math/big"
 	"net/rpc"
 	"os"
+	"strconv"
 	"strings"
 	"sync"
 	"syscall"
@@ -57,6 +58,8 @@ type BrokerAPI interface {
 	// DialKeep dials and keeps the connection; CallKept makes one more call on it.
 	DialKeep(id uint32) (string, error)
 	CallKept(id uint32) (string, error)
+	// SlowKept starts a call on the kept connection that the peer answers only after ms milliseconds, and returns at once.
+	SlowKept(id uint32, ms int) error
 }
 
 var (
@@ -71,7 +74,13 @@ func keptKey(b interface{}, id uint32) string { return fmt.Sprintf("%p/%d", b, i
 
 type WhoRPC struct{ Tag string }
 
-func (w *WhoRPC) Who(_ int, out *string) error { *out = w.Tag; return nil }
+func (w *WhoRPC) Who(ms int, out *string) error {
+	if ms > 0 {
+		time.Sleep(time.Duration(ms) * time.Millisecond)
+	}
+	*out = w.Tag
+	return nil
+}
 
 type whoServer interface {
 	Who(context.Context, *wrapperspb.StringValue) (*wrapperspb.StringValue, error)
@@ -80,7 +89,12 @@ type whoImpl struct{ tag string }
 
 // Who answers with the tag and how the calling peer is authenticated: "tag;tls" when the
 // connection carries verified TLS peer certificates, "tag;plain" otherwise.
-func (w *whoImpl) Who(ctx context.Context, _ *wrapperspb.StringValue) (*wrapperspb.StringValue, error) {
+func (w *whoImpl) Who(ctx context.Context, in *wrapperspb.StringValue) (*wrapperspb.StringValue, error) {
+	if in != nil && strings.HasPrefix(in.Value, "sleep:") {
+		if ms, err := strconv.Atoi(in.Value[6:]); err == nil {
+			time.Sleep(time.Duration(ms) * time.Millisecond)
+		}
+	}
 	sec := "plain"
 	if p, ok := peer.FromContext(ctx); ok {
 		if ti, ok := p.AuthInfo.(credentials.TLSInfo); ok && len(ti.State.PeerCertificates) > 0 {
@@ -251,6 +265,33 @@ func (g GRPCAPI) CallKept(id uint32) (string, error) {
 	return whoCall(id, conn, 10*time.Second)
 }
 
+func (m MuxAPI) SlowKept(id uint32, ms int) error {
+	keptMu.Lock()
+	c := keptRPC[keptKey(m.B, id)]
+	keptMu.Unlock()
+	if c == nil {
+		return errors.New("no kept connection")
+	}
+	var out string
+	c.Go("Plugin.Who", ms, &out, make(chan *rpc.Call, 1))
+	return nil
+}
+
+func (g GRPCAPI) SlowKept(id uint32, ms int) error {
+	keptMu.Lock()
+	conn := keptGRPC[keptKey(g.B, id)]
+	keptMu.Unlock()
+	if conn == nil {
+		return errors.New("no kept connection")
+	}
+	go func() {
+		ctx, cancel := context.WithTimeout(context.Background(), time.Duration(ms+5000)*time.Millisecond)
+		defer cancel()
+		conn.Invoke(ctx, "/verif.Who/Who", wrapperspb.String("sleep:"+strconv.Itoa(ms)), new(wrapperspb.StringValue))
+	}()
+	return nil
+}
+
 // ---------------------------------------------------------------- the implementation behind a dispensed plugin
 
 var InstanceID = func() string {
@@ -337,6 +378,11 @@ func (im *Impl) Do(c Cmd) Res {
 			return Res{Err: err.Error()}
 		}
 		return Res{OK: true, S: tag}
+	case "slowkept":
+		if err := im.Broker.SlowKept(c.ID, c.Ms); err != nil {
+			return Res{Err: err.Error()}
+		}
+		return Res{OK: true}
 	case "nextid":
 		return Res{OK: true, N: int(im.Broker.NextId())}
 	case "script":
